@@ -474,9 +474,15 @@ Qed.
 (* ================================================================== *)
 (** * 3. Only `config` and `init` write configurations *)
 
-(* every effect but the two configuration writes *)
+(* every effect but the three that write a configuration file *)
 Definition cfg_static (e : effect) : Prop :=
-  match e with ESetLcfg _ | ESetGcfg _ => False | _ => True end.
+  match e with ESetLcfg _ | ESetGcfg _ | EInit => False | _ => True end.
+
+Lemma cfg_static_frame : forall e w, cfg_static e ->
+  w_lcfg (apply_effect e w) = w_lcfg w /\ w_gcfg (apply_effect e w) = w_gcfg w.
+Proof.
+  intros e w He. destruct e; try contradiction He; autorewrite with wfields; split; reflexivity.
+Qed.
 
 Section StaticCommands.
   Variable Inv : world -> Prop.
@@ -511,8 +517,6 @@ Section StaticCommands.
   Proof. intros p data. unfold wt_put. csteps. Qed.
   Lemma head_tree_nodes_cst : forall c, emits Inv G (head_tree_nodes c).
   Proof. intros c. unfold head_tree_nodes. csteps. Qed.
-  Lemma cmd_init_cst : emits Inv G cmd_init.
-  Proof. unfold cmd_init. csteps. Qed.
   Lemma add_file_cst : forall p, emits Inv G (add_file p).
   Proof. intros p. pose proof put_obj_cst as Hput. unfold add_file. csteps; apply Hput. Qed.
   Lemma cmd_add_cst : forall c args, emits Inv G (cmd_add c args).
@@ -581,15 +585,16 @@ Qed.
 (* [run_cmd] from the static commands and a specification of `config` *)
 Lemma run_cmd_emits_cfg : forall (Inv : world -> Prop) (G : world -> effect -> Prop) e c,
   (forall e0 w, cfg_static e0 -> Inv w -> G w e0 /\ Inv (apply_effect e0 w)) ->
+  (c = CInit -> forall w, Inv w -> G w EInit /\ Inv (apply_effect EInit w)) ->
   (forall g args, c = CConfig g args -> forall x w, Inv w -> ctx_of w = Some x ->
      hoare Inv G (eq w) (cmd_config x g args) (fun _ _ => True)) ->
   emits Inv G (run_cmd e c).
 Proof.
-  intros Inv G e c Hst Hcfg. unfold run_cmd. apply emits_bind_getw. intros w Hi.
+  intros Inv G e c Hst Hinit Hcfg. unfold run_cmd. apply emits_bind_getw. intros w Hi.
   assert (Hstat : forall (m : M (list bytes)) w0, emits Inv G m -> hoare Inv G (eq w0) m (fun _ _ => True)).
   { intros m w0 Hm. apply hoare_at with (P := fun _ : world => True); [apply emits_hoare; exact Hm | exact Logic.I]. }
   destruct c;
-    [ apply Hstat; apply cmd_init_cst; exact Hst | .. ];
+    [ unfold cmd_init; hsteps; [apply (Hinit eq_refl); assumption | exact Logic.I] | .. ];
     (hstep;
      apply at_bind_call with (P := eq w) (R := fun x w' => w' = w /\ ctx_of w = Some x);
        [apply load_ctx_hoare | reflexivity |]; intros x w' _ [Hw' Hx]; subst w').
@@ -625,10 +630,14 @@ Definition cfg_G (w : world) (e : effect) : Prop :=
 
 Lemma WfCfg_static : forall e w, cfg_static e -> WfCfg w -> cfg_G w e /\ WfCfg (apply_effect e w).
 Proof.
-  intros e w He [Hl Hg].
-  destruct e; try contradiction He; (split; [exact Logic.I|]);
-    unfold WfCfg; autorewrite with wfields;
-    first [ split; assumption | split; [exact good_st_empty | exact Hg] ].
+  intros e w He [Hl Hg]. split; [destruct e; try contradiction He; exact Logic.I|].
+  unfold WfCfg. destruct (cfg_static_frame e w He) as [El Eg]. rewrite El, Eg. split; assumption.
+Qed.
+
+Lemma WfCfg_init : forall w, WfCfg w -> cfg_G w EInit /\ WfCfg (apply_effect EInit w).
+Proof.
+  intros w [Hl Hg]. split; [exact Logic.I|]. unfold WfCfg. autorewrite with wfields.
+  split; [exact good_st_empty | exact Hg].
 Qed.
 
 Lemma WfCfg_set_l : forall s w, good_st s -> WfCfg w ->
@@ -649,7 +658,7 @@ Qed.
 
 Theorem run_cmd_emits_WfCfg : forall e c, emits WfCfg cfg_G (run_cmd e c).
 Proof.
-  intros e c. apply run_cmd_emits_cfg; [exact WfCfg_static|].
+  intros e c. apply run_cmd_emits_cfg; [exact WfCfg_static | intros _; exact WfCfg_init |].
   intros g args _ x w _ _. apply cmd_config_wf.
 Qed.
 
@@ -711,11 +720,15 @@ Definition ok_action (a : action) : Prop := match a with ACmd _ c => ok_cmd c | 
 
 Lemma CfgGood_static : forall e w, cfg_static e -> CfgGood w -> good_G w e /\ CfgGood (apply_effect e w).
 Proof.
-  intros e w He (l & g & Hl & Hg & Hwl & Hwg).
-  destruct e; try contradiction He; (split; [exact Logic.I|]);
-    unfold CfgGood; autorewrite with wfields;
-    first [ exists l, g; split; [exact Hl | split; [exact Hg | split; [exact Hwl | exact Hwg]]]
-          | exists [], g; split; [reflexivity | split; [exact Hg | split; [exact wf_cfg_nil | exact Hwg]]] ].
+  intros e w He Hi. split; [destruct e; try contradiction He; exact Logic.I|].
+  unfold CfgGood. destruct (cfg_static_frame e w He) as [El Eg]. rewrite El, Eg. exact Hi.
+Qed.
+
+Lemma CfgGood_init : forall w, CfgGood w -> good_G w EInit /\ CfgGood (apply_effect EInit w).
+Proof.
+  intros w (l & g & Hl & Hg & Hwl & Hwg). split; [exact Logic.I|].
+  unfold CfgGood. autorewrite with wfields.
+  exists [], g. split; [reflexivity | split; [exact Hg | split; [exact wf_cfg_nil | exact Hwg]]].
 Qed.
 
 Lemma CfgGood_set_l : forall c w, wf_cfg c -> CfgGood w ->
@@ -760,7 +773,7 @@ Qed.
 
 Theorem run_cmd_emits_CfgGood : forall e c, ok_cmd c -> emits CfgGood good_G (run_cmd e c).
 Proof.
-  intros e c Hok. apply run_cmd_emits_cfg; [exact CfgGood_static|].
+  intros e c Hok. apply run_cmd_emits_cfg; [exact CfgGood_static | intros _; exact CfgGood_init |].
   intros g args Hc x w _ Hx. subst c. apply cmd_config_good; [exact Hx | exact Hok].
 Qed.
 
@@ -786,6 +799,38 @@ Proof. exists [], []. split; [reflexivity | split; [reflexivity | split; exact w
 
 Theorem CfgGood_run : forall h, Forall ok_action h -> CfgGood (run h w_empty).
 Proof. intros h Hall. apply CfgGood_run_from; [exact Hall | exact CfgGood_empty]. Qed.
+
+(* ---------- only `init` and `config` write a configuration file ---------- *)
+Theorem other_commands_keep_configs : forall e c w w' o tr,
+  c <> CInit -> (forall g args, c <> CConfig g args) ->
+  step (ACmd e c) w = (w', o, tr) ->
+  w_lcfg w' = w_lcfg w /\ w_gcfg w' = w_gcfg w /\ Forall cfg_static tr.
+Proof.
+  intros e c w w' o tr Hni Hnc Hstep.
+  pose (I0 := fun w0 : world => w_lcfg w0 = w_lcfg w /\ w_gcfg w0 = w_gcfg w).
+  pose (G0 := fun (_ : world) (e0 : effect) => cfg_static e0).
+  assert (Hem : emits I0 G0 (run_cmd e c)).
+  { apply run_cmd_emits_cfg.
+    - intros e0 w0 He0 [Hl Hg]. split; [exact He0|]. unfold I0.
+      destruct (cfg_static_frame e0 w0 He0) as [El Eg]. rewrite El, Eg. split; assumption.
+    - intro Hc. contradiction (Hni Hc).
+    - intros g args Hc. contradiction (Hnc g args Hc). }
+  cbn [step] in Hstep. destruct (run_m (run_cmd e c) w) as [[r w1] tr1] eqn:Erun.
+  assert (Hi : I0 w) by (split; reflexivity).
+  destruct (emits_sound I0 G0 _ _ w r w1 tr1 Hem Hi Erun) as ([Hl Hg] & _ & Hsteps & _).
+  assert (Hall : Forall cfg_static tr1).
+  { apply (steps_ok_forall I0 G0 cfg_static (fun _ e0 He0 => He0) tr1 w Hsteps). }
+  destruct r; injection Hstep as Hw _ Htr; subst w1 tr1; auto.
+Qed.
+
+Theorem init_spec : forall e w,
+  w_inited w = false ->
+  step (ACmd e CInit) w = (apply_effect EInit w, OOk [], [EInit])
+  /\ w_lcfg (apply_effect EInit w) = CfgFile (Some []) /\ w_gcfg (apply_effect EInit w) = w_gcfg w.
+Proof.
+  intros e w Hi. split; [|split; reflexivity].
+  rewrite step_cmd_eq, run_cmd_eq. unfold cmd_init. ev. rewrite Hi. cbn [negb]. ev. reflexivity.
+Qed.
 
 (* ---------- item 2c: NOT-ok arguments ---------- *)
 
@@ -1373,6 +1418,8 @@ Print Assumptions WfCfg_fault.
 Print Assumptions WfCfg_prefix.
 Print Assumptions CfgGood_step.
 Print Assumptions CfgGood_run.
+Print Assumptions other_commands_keep_configs.
+Print Assumptions init_spec.
 Print Assumptions broken_config_refuses.
 Print Assumptions broken_config_refuses_everything.
 Print Assumptions broken_config_frozen.
